@@ -53,6 +53,20 @@ impl<'a> ZoneHydrator<'a> {
             ))
         });
 
+        // A segment that is still being flushed gets its column files one by one, so its zones
+        // can be hydrated with only some of their columns. The uid's zone index is written after
+        // all of them; until it exists the rows are still served by the passive buffer.
+        candidate_zones.retain(|z| {
+            !self.plan.is_segment_inflight(&z.segment_id)
+                || z.uid().map_or(true, |uid| {
+                    self.plan
+                        .segment_base_dir
+                        .join(&z.segment_id)
+                        .join(format!("{}.idx", uid))
+                        .exists()
+                })
+        });
+
         let zones_after_dedup = candidate_zones.len();
 
         // If coordinator supplied a zone filter, apply it now
